@@ -16,7 +16,7 @@ from . import rseval, rsparse
 from .common import load_program
 from .rseval import Struct, Enum, Uninterp, Ok, Err, NONE, Some
 
-FILES = ["src/raft/filestore/raftdata.rs", "src/raft/store/mod.rs"]
+FILES = ["src/raft/filestore/raftdata.rs", "src/raft/store/mod.rs", "src/raft/filestore/raftapply.rs"]
 PROGRAMS = ["apply_log_to_state_machine", "do_send_log", "load_log"]
 
 
@@ -171,6 +171,7 @@ def run(tier, seed):
                 ob.update({"verdict": "inconclusive", "message": "encoder met source it cannot encode: %s" % e})
             ob["solver_s"] = round(ob["solver_s"], 3)
             obligations.append(ob)
+    obligations.append(last_applied_obligation(prog))
     from lib import native
     for ob in obligations:
         if ob.get("verdict") == "violation":
@@ -180,6 +181,86 @@ def run(tier, seed):
             ob["replay"] = {"path": path, "outcome": "model-only", "message": "dispatch functions evaluated from the source; the seven actors cannot be started without a data directory"}
     info["wall_s"] = round(time.time() - t0, 1)
     return {"obligations": obligations, "info": info}
+
+
+def last_applied_obligation(prog):
+    """the follower's batch path and the leader's single path record the same last-applied index for the same entries:
+    after ApplyBatchRequest([e1..ek]) (k = 1..3, strictly increasing symbolic indexes) every entry has been handed to the
+    state machine in order and both the in-memory and the persisted last_applied_log equal index(ek) - which is what k
+    single ApplyRequest messages leave behind (Handler<StateApplyAsyncRequest>: last_applied_log = req.index)."""
+    ob = {"engine": "smt", "harness": "s07_last_applied", "encodes": ["Handler<StateApplyRequest>::handle (ApplyBatchRequest arm)",
+          "Handler<StateApplyAsyncRequest>::handle (ApplyRequest: last_applied_log assignment)"], "encodes_files": FILES,
+          "bound": "batches of 1..=3 entries with strictly increasing symbolic 64-bit indexes", "queries": 0, "solver_s": 0.0, "distinct": 0}
+    try:
+        batch_fn = prog.trait_method("StateApplyManager", "handle", "Handler<StateApplyRequest>")
+        single_fn = prog.trait_method("StateApplyManager", "handle", "Handler<StateApplyAsyncRequest>")
+        if batch_fn is None or single_fn is None:
+            raise rsparse.Unsupported("StateApplyManager handlers not found")
+        nq = 0
+        for k in (1, 2, 3):
+            idx = [z3.BitVec("index%d" % i, 64) for i in range(k)]
+            s = z3.Solver()
+            for i in range(1, k):
+                s.add(z3.ULT(idx[i - 1], idx[i]))
+            it = rseval.Interp(prog)
+            it.lenient = True
+            applied = []
+            saved = []
+            it.models[("StateApplyManager", "apply_request_to_state_machine")] = lambda interp, recv, args: applied.append(args[0]["index"]) or Ok(())
+
+            def do_send(interp, recv, args):
+                saved.append(args[0])
+                return ()
+            it.models[("ActorRef", "do_send")] = do_send
+            mgr = Struct("StateApplyManager", {"last_applied_log": 0, "index_manager": Some(Actor("index_manager")), "log_manager": Some(Actor("log_manager")),
+                                               "snapshot_manager": Some(Actor("snapshot_manager")), "data_wrap": Some(Uninterp("data_wrap", [])), "snapshot_next_index": 0,
+                                               "last_snapshot_index": 0, "is_init": True})
+            reqs = [Struct("ApplyRequestDto", {"index": idx[i], "request": Uninterp("req%d" % i, [])}) for i in range(k)]
+            paths = it.explore(lambda: it._invoke(batch_fn, [mgr, Enum("StateApplyRequest", "ApplyBatchRequest", [list(reqs)]), "ctx"], self_ty="StateApplyManager"))
+            if len(paths) != 1 or paths[0][2] is not None:
+                raise rsparse.Unsupported("batch arm forks or panics (%d paths)" % len(paths))
+            batch_last = mgr["last_applied_log"]
+            saved_vals = [m.args[0] if isinstance(m, Uninterp) and m.args else (m.payload[0] if isinstance(m, Enum) and m.payload else None) for m in saved]
+            # single path
+            it2 = rseval.Interp(prog)
+            it2.lenient = True
+            mgr2 = Struct("StateApplyManager", dict(mgr, last_applied_log=0))
+            for i in range(k):
+                try:
+                    it2._invoke(single_fn, [mgr2, Enum("StateApplyAsyncRequest", "ApplyRequest", [reqs[i]]), "ctx"], self_ty="StateApplyManager")
+                except rsparse.Unsupported:
+                    raise
+            single_last = mgr2["last_applied_log"]
+            bad = []
+            bad.append(("batch path records a last-applied index that differs from the index of the last entry of the batch", rseval.to_bv(batch_last) != idx[-1]))
+            bad.append(("batch path and single-entry path disagree on the last-applied index", rseval.to_bv(batch_last) != rseval.to_bv(single_last)))
+            if len(applied) != k or any(not z3.is_true(z3.simplify(rseval.to_bv(a) == idx[i])) for i, a in enumerate(applied)):
+                bad.append(("batch path does not hand every entry to the state machine in order", z3.BoolVal(True)))
+            if len(saved_vals) != 1 or saved_vals[0] is None:
+                bad.append(("batch path does not persist the last-applied index exactly once", z3.BoolVal(True)))
+            else:
+                bad.append(("batch path persists a last-applied index that differs from the index of the last entry", rseval.to_bv(saved_vals[0]) != idx[-1]))
+            for msg, cond in bad:
+                s.push()
+                s.add(cond)
+                ts = time.time()
+                r = s.check()
+                ob["solver_s"] += time.time() - ts
+                nq += 1
+                if r == z3.sat:
+                    m = s.model()
+                    ob.update({"verdict": "violation", "message": "%s (batch of %d entries)" % (msg, k), "tags": ["last-applied-bookkeeping"],
+                               "counterexample": {"batch_indexes": [m.eval(x, model_completion=True).as_long() for x in idx],
+                                                  "recorded": str(z3.simplify(rseval.to_bv(batch_last)))}})
+                    s.pop()
+                    ob["queries"] = nq
+                    return ob
+                s.pop()
+        ob.update({"verdict": "discharged", "distinct": nq, "queries": nq})
+    except rsparse.Unsupported as e:
+        ob.update({"verdict": "inconclusive", "message": "encoder met source it cannot encode: %s" % e})
+    ob["solver_s"] = round(ob["solver_s"], 3)
+    return ob
 
 
 def fmt(emitted):
